@@ -291,6 +291,30 @@ pub fn enumerate(n: u32, part: usize, parts: usize, sink: &mut EnumSink) {
             sink.stats.exhaustive_spaces.push(format!("all {} intervals whose end points are among 0, 1, 0x7f, 0x80, 0xd7ff, 0xd800, 0xdbff, 0xdc00, 0xdfff, 0xe000, 0xfffd, 0xffff, 0x10000, MAX-1, MAX or their neighbours: every interval and ordered pair", ivs2.len()));
         }
     }
+    // wide lists (the list argument has no documented length limit): nested intervals shrinking to a
+    // point, with and without a final disjoint element; judged by max of starts / min of ends
+    if part == parts - 1 {
+        for &len in &[1000usize, 60_000, 400_000, 6_000_000] {
+            for disjoint_tail in [false, true] {
+                let mut l: Vec<(u32, u32)> = (0..len).map(|k| ((k % 90_000) as u32, MAX - (k % 70_000) as u32)).collect();
+                if disjoint_tail {
+                    l.push((0, 5));
+                }
+                let lo = l.iter().map(|x| x.0).max().unwrap();
+                let hi = l.iter().map(|x| x.1).min().unwrap();
+                let sets: Vec<CharSet> = l.iter().map(|&(a, b)| CharSet::range(a, b)).collect();
+                let got = CharSet::inter_list(&sets).map(|r| crate::bisim::bounds_of(&r));
+                let exp = if lo <= hi { Some((lo, hi)) } else { None };
+                let mut o = Outcome::default();
+                o.evals += 1;
+                if got != exp {
+                    o.fail("C20/inter_list", format!("inter_list of {} nested intervals{} = {:?}, expected {:?}", len, if disjoint_tail { " and one disjoint from their intersection" } else { "" }, got, exp));
+                }
+                sink.case(&o, true, || format!("inter_list of {} intervals", l.len()));
+            }
+        }
+        sink.stats.exhaustive_spaces.push("inter_list on lists of 1 000, 60 000, 400 000 and 6 000 000 nested intervals (with / without an element disjoint from the rest)".to_string());
+    }
     if part == 0 {
         sink.stats.exhaustive_spaces.push(format!(
             "all {} intervals on the universe [0,{n}) u middle u ({:#x},MAX]: every interval, ordered pair and list of length <= 3",
